@@ -146,7 +146,10 @@ def run(tier, seed):
     skews = [0.0, 0.1]
     crpix_kinds = ["centre", "corner", "outside-a", "outside-b"]
     crvals = [(0.0, 0.0), (359.9, 40.0), (120.0, -89.0)]
-    sizes = [(1, 1), (2, 3), (5, 4), (64, 48)]
+    sizes = [(1, 1), (2, 3), (5, 4), (64, 48)] + ([(3, 100), (128, 96)] if tier == "thorough" else [])
+    if tier == "thorough":
+        thetas = thetas + [1, 89, 271, 315, 359]
+        crvals = crvals + [(180.0, 89.9), (0.05, -45.0)]
     rep.rule = (
         "projection %r x rotation %r x 3 scales x skew %r x both parities x 4 reference-pixel placements x 3 reference values x sizes %r x "
         "{Image, ImageDescription}; every pixel of every image compared; non-trivial = rotated, skewed or off-centre reference pixel"
